@@ -107,6 +107,7 @@ type Term struct {
 	// it depends on several symbols or on an uninterpreted function.
 	supSym   *Term
 	supMulti bool
+	hasUF    bool // contains an uninterpreted-function application: model evaluation is not reliable
 }
 
 func (t *Term) isConst() bool { return t.op == OConst }
@@ -156,6 +157,9 @@ func (tt *TermTable) intern(op Op, sort Sort, a, b, c *Term, k uint64, name stri
 		for _, x := range [3]*Term{a, b, c} {
 			if x == nil {
 				continue
+			}
+			if x.hasUF {
+				t.hasUF = true
 			}
 			if x.supMulti {
 				t.supMulti = true
@@ -247,7 +251,7 @@ func (tt *TermTable) UF(name string, sort Sort, args ...*Term) *Term {
 	if t, ok := tt.index[key]; ok {
 		return t
 	}
-	t := &Term{id: int32(len(tt.terms)), op: OUF, sort: sort, name: name, args: append([]*Term(nil), args...), supMulti: true}
+	t := &Term{id: int32(len(tt.terms)), op: OUF, sort: sort, name: name, args: append([]*Term(nil), args...), supMulti: true, hasUF: true}
 	tt.terms = append(tt.terms, t)
 	tt.index[key] = t
 	return t
